@@ -92,10 +92,13 @@ def run_case(case, tid):
     if usage in (1, 2):
         # one reader object used for a second replay of the rewound file (e.g. a loop comparing schedulers on one trace):
         # the first replay is consumed a little, the second one must start from the beginning
-        for _ in range(3):
-            wl.run_one_tick()
-        buf.seek(0)
-        wl = reader.get_workload(tps)
+        try:
+            for _ in range(3):
+                wl.run_one_tick()
+            buf.seek(0)
+            wl = reader.get_workload(tps)
+        except Exception:  # noqa: BLE001
+            pass
     start = case["t0"]
     if start:
         wl.current_tick = start            # public cursor attribute: skip an empty prefix of the run
@@ -105,7 +108,10 @@ def run_case(case, tid):
     pos = [0] * len(strs)
     backlog = []
     for t in range(start, end):
-        ps = wl.run_one_tick()
+        try:
+            ps = wl.run_one_tick()
+        except Exception:  # noqa: BLE001 - a well-formed trace must replay; what was not delivered is then reported as such
+            break
         for j, p in enumerate(ps):
             i = int(p.pipeline_id[1:]) - 1
             count[i] += 1
